@@ -365,6 +365,21 @@ def check_fci_sector(idx: Index, rep: Report):
                        what="the CI object always works in the target (n_alpha, n_beta) sector: it gets the pair, or the bare count only where spin == 0 is established",
                        reason=f"{f} receives `{norm(a)}` without an enclosing `spin == 0` test: for spin >= 2 pyscf then solves the lowest-|Sz| sector, not the target one")
     rep.floor("CI calls with an electron argument", n, 6)
+    # which CI implementation searches the sector: pyscf's direct_spin0 works with spin-symmetric (singlet) CI vectors only, so the Sz = 0 component of a
+    # triplet ground state (C, CH2, O2) is outside its search space; direct_spin1 / direct_uhf / direct_nosym search the whole (n_alpha, n_beta) sector
+    FULL = {"direct_spin1", "direct_uhf", "direct_nosym", "direct_spin1_symm", "selected_ci", "direct_spin1_cyl_sym"}
+    SINGLET_ONLY = {"direct_spin0", "direct_spin0_symm", "selected_ci_spin0", "selected_ci_spin0_symm"}
+    ctor_sites = [c for mname in ("__init__", "simulate", "get_rdm") for c in ast.walk(cls.methods[mname].node)
+                  if isinstance(c, ast.Call) and isinstance(c.func, ast.Attribute) and c.func.attr == "FCI" and norm(c.func).startswith("fci.")]
+    for c in ctor_sites:
+        modname = norm(c.func).split(".")[1] if norm(c.func).count(".") >= 2 else ""
+        if modname not in FULL | SINGLET_ONLY:
+            raise AnalysisError(f"FCISolverPySCF: CI implementation {norm(c.func)} is not in the table of pyscf solvers with a known search space")
+        rep.decide(modname in FULL, "K5.ci-search-space", cls.methods["__init__"], c, text=f"CI object {norm(c.func)}",
+                   what="the CI implementation searches the whole (n_alpha, n_beta) sector, whose lowest state need not be a singlet",
+                   reason=f"{norm(c.func)} is restricted to spin-symmetric (singlet) CI vectors: for a molecule whose lowest Sz = 0 state is a triplet component the energy "
+                          f"returned lies above the lowest sector eigenvalue of the qubit Hamiltonian (and above what the frozen-orbital branch of the same class returns)")
+    rep.floor("CI objects constructed", len(ctor_sites), 2)
     # the pair itself: n_alpha - n_beta = spin and n_alpha + n_beta = nelec (same closed form as the occupation vector)
     init = cls.methods["__init__"]
     asg = {norm(x.targets[0]): x.value for x in own_nodes(init.node) if isinstance(x, ast.Assign) and norm(x.targets[0]) in ("self.n_alpha", "self.n_beta")}
